@@ -202,6 +202,9 @@ class H2Protocol:
             stream_ids = list(self.streams.keys())
             for stream_id in stream_ids:
                 await self._close_stream(stream_id)
+            for buffer in list(self.stream_buffers.values()):
+                # Release any sender blocked on flow control
+                await buffer.close()
             await self.has_data.set()
 
     async def stream_send(self, event: StreamEvent) -> None:
@@ -282,6 +285,9 @@ class H2Protocol:
                     pass
             elif isinstance(event, h2.events.StreamReset):
                 await self._close_stream(event.stream_id)
+                if event.stream_id in self.stream_buffers:
+                    # Release any sender blocked on flow control
+                    await self.stream_buffers[event.stream_id].close()
                 await self._window_updated(event.stream_id)
             elif isinstance(event, h2.events.WindowUpdated):
                 await self._window_updated(event.stream_id)
